@@ -355,7 +355,13 @@ func (c *ClientConn) recv(ctx context.Context) ([]byte, error) {
 // cancellation of a context so that the gbn connection is able to close
 // independently of the ClientConn.
 func (c *ClientConn) send(ctx context.Context, payload []byte) error {
-	c.sendMu.Lock()
+	// Another send may be in its retry loop with the lock held for as long
+	// as the mailbox server cannot be reached. A caller with a deadline
+	// (such as the FIN that Close sends) must not wait for it longer than
+	// that deadline, or Close would never return.
+	if err := lockWithContext(ctx, &c.sendMu); err != nil {
+		return err
+	}
 	defer c.sendMu.Unlock()
 
 	// Set up the send-socket if it has not yet been initialized.
@@ -541,6 +547,20 @@ func (c *ClientConn) Close() error {
 }
 
 var _ ProxyConn = (*ClientConn)(nil)
+
+// lockWithContext acquires the mutex, giving up with the context's error if
+// the context ends first.
+func lockWithContext(ctx context.Context, mu *sync.Mutex) error {
+	for !mu.TryLock() {
+		select {
+		case <-ctx.Done():
+			return ctx.Err()
+		case <-time.After(5 * time.Millisecond):
+		}
+	}
+
+	return nil
+}
 
 func stripJSONWrapper(wrapped string) (string, error) {
 	if resultPattern.MatchString(wrapped) {
